@@ -101,6 +101,27 @@ impl Prop for C14 {
         out.push(Case { id: format!("{};n={}", cell, i), cell, input: json!({"mode": "chain", "kind": k, "a": a, "b": b, "c": c, "op1": op1, "op2": op2, "forms": forms}) });
       }
     }
+    // sets built by converting a matrix with repeated entries (u<{kind}> := m): distinct elements, reported size
+    for k in ["f64", "u8", "i64", "r64", "string", "bool"] {
+      for i in 0..(if tier == Tier::Quick { 10 } else { 100 }) {
+        let mut rng = Rng::keyed(seed, &format!("c14conv{}{}", k, i));
+        let u = universe(k); let n = 2 + rng.below(6) as usize;
+        let elems: Vec<usize> = (0..n).map(|_| rng.below(u.len() as u64) as usize).collect();
+        let shape = ["row", "col", "mat"][i % 3];
+        let cell = format!("kind={};op=convert;shape={}", k, shape);
+        out.push(Case { id: format!("{};n={}", cell, i), cell, input: json!({"mode": "convert", "kind": k, "elems": elems, "shape": shape}) });
+      }
+    }
+    // literals whose elements have DIFFERENT kinds must be rejected (scalar kinds, tuples of other inner kinds or arity, sets
+    // of other element kinds, records of other field kinds)
+    let families: [(&str, [&str; 3]); 8] = [("f64", ["1", "2", "3.5"]), ("u8", ["1u8", "2u8", "7u8"]), ("string", ["\"a\"", "\"b\"", "\"c\""]), ("tuple-ff", ["(1,2)", "(2,1)", "(3,3)"]), ("tuple-fs", ["(1,\"a\")", "(2,\"b\")", "(3,\"c\")"]), ("tuple-fff", ["(1,2,3)", "(2,1,0)", "(3,3,3)"]), ("set-f", ["{1,2}", "{3,4}", "{5,6}"]), ("set-s", ["{\"a\",\"b\"}", "{\"c\",\"d\"}", "{\"e\",\"f\"}"])];
+    for (i, (fa, ea)) in families.iter().enumerate() { for (j, (fb, eb)) in families.iter().enumerate() {
+      if i == j { continue; }
+      for (v, lit) in [format!("{{{}, {}}}", ea[0], eb[0]), format!("{{{}, {}, {}}}", ea[0], ea[1], eb[1]), format!("{{{}, {}, {}}}", eb[2], ea[2], ea[0])].iter().enumerate() {
+        let cell = format!("mixed-literal;first={};second={}", fa, fb);
+        out.push(Case { id: format!("{};v={}", cell, v), cell, input: json!({"mode": "mixed", "lit": lit}) });
+      }
+    } }
     // comprehensions over numeric sets
     let nc = if tier == Tier::Quick { 60 } else { 600 };
     for i in 0..nc {
@@ -209,6 +230,30 @@ impl Prop for C14 {
           match v { CVal::S(_, Sc::B(g)) => if g != want { return Outcome::violated("set-relation-wrong", format!("{} with a={} b={} gave {} expected {}", src, va.show(), vb.show(), g, want)); }, o => return Outcome::violated("not-a-bool", format!("{} gave {}", src, o.show())) }
         }
         if both_nonempty { Outcome::held() } else { Outcome::trivial() }
+      }
+      "convert" => {
+        let k = case.input["kind"].as_str().unwrap();
+        let m = tri!(learn(&mut s, k));
+        let u = universe(k);
+        let idx: Vec<usize> = serde_json::from_value(case.input["elems"].clone()).unwrap();
+        let sp: Vec<&str> = idx.iter().map(|i| u[*i].0).collect();
+        let lit = match case.input["shape"].as_str().unwrap() { "row" => format!("[{}]", sp.join(" ")), "col" => format!("[{}]", sp.join("; ")), _ => { let mut v = sp.clone(); if v.len() % 2 == 1 { v.push(sp[0]); } let h = v.len() / 2; format!("[{}; {}]", v[..h].join(" "), v[h..].join(" ")) } };
+        if !s.eval(&format!("mm := {}", lit)).is_ok() { return Outcome::trivial().tag("matrix-literal-unsupported"); }
+        let annot = match k { "i64" | "f64" | "u8" | "r64" | "string" | "bool" => k, _ => return Outcome::trivial() };
+        let src = format!("u<{{{}}}> := mm", annot);
+        let ev = s.eval(&src);
+        if !ev.is_ok() { return Outcome::trivial().tag(format!("conversion-unsupported:{}", k)); }
+        let v = tri!(check(&ev, &format!("{} with mm := {}", src, lit)));
+        let want: BTreeSet<usize> = idx.iter().map(|i| u[*i].1).collect();
+        if tri!(to_ids(&v, &m)) != want { return Outcome::violated("conversion-elements-wrong", format!("{} with mm := {} gave {}", src, lit, v.show())); }
+        // the converted set must equal the literal of its distinct elements
+        let mut firsts: Vec<&str> = Vec::new(); let mut seen = BTreeSet::new(); for i in idx.iter() { if seen.insert(u[*i].1) { firsts.push(u[*i].0); } }
+        if let Ev::Ok(l) = s.eval(&format!("{{{}}}", firsts.join(", "))) { if let (CVal::Set(_, n1, _), CVal::Set(_, n2, _)) = (&v, &l) { if n1 != n2 { return Outcome::violated("size-mismatch", format!("{} with mm := {} reports size {} but the literal of its distinct elements reports {}", src, lit, n1, n2)); } } }
+        if idx.len() > want.len() { Outcome::held() } else { Outcome::held().tag("no-repeats") }
+      }
+      "mixed" => {
+        let lit = case.input["lit"].as_str().unwrap();
+        match s.eval(lit) { Ev::Ok(v) => Outcome::violated("mixed-kinds-accepted", format!("{} evaluated to {}", lit, v.show())), Ev::Panic(p) => Outcome::violated("panic-escaped", p), Ev::ParseErr(p) => Outcome::inconclusive("harness-parse", format!("{} {}", lit, p)), Ev::Err(..) => Outcome::held().tag("rejected") }
       }
       "comp" => {
         let a: Vec<i64> = serde_json::from_value(case.input["a"].clone()).unwrap();
